@@ -1444,7 +1444,15 @@ class MatlabWrapper(CheckMixin, FormatMixin):
             is_static_method = isinstance(extra, parser.StaticMethod)
             is_property = isinstance(extra, parser.Variable)
 
-            if collector_func[2] == 'collectorInsertAndMakeBase':
+            # Slot 2 holds a role tag only for the class-level routines; for methods,
+            # static methods and properties it holds the user's name, which may
+            # coincide with a tag.
+            if is_method or is_static_method or is_property:
+                role = None
+            else:
+                role = collector_func[2]
+
+            if role == 'collectorInsertAndMakeBase':
                 body += textwrap.indent(textwrap.dedent('''\
                     mexAtExit(&_deleteAllObjects);
                     typedef std::shared_ptr<{class_name_sep}> Shared;\n
@@ -1462,7 +1470,7 @@ class MatlabWrapper(CheckMixin, FormatMixin):
                     ''').format(collector_func[1].parent_class),
                                             prefix='  ')
 
-            elif collector_func[2] == 'constructor':
+            elif role == 'constructor':
                 base = ''
                 params, body_args = self._wrapper_unwrap_arguments(
                     extra.args, instantiated_class=collector_func[1])
@@ -1488,7 +1496,7 @@ class MatlabWrapper(CheckMixin, FormatMixin):
                                       class_name=class_name,
                                       base=base)
 
-            elif collector_func[2] == 'deconstructor':
+            elif role == 'deconstructor':
                 body += textwrap.indent(textwrap.dedent('''\
                     typedef std::shared_ptr<{class_name_sep}> Shared;
                     checkArguments("delete_{class_name}",nargout,nargin,1);
